@@ -23,6 +23,7 @@
 // #![deny(missing_docs)]
 #![cfg_attr(kani, recursion_limit = "1024")]
 #![cfg_attr(kani, feature(allocator_api))]
+#![cfg_attr(kani, feature(core_io_internals, core_io))]
 
 #[macro_use]
 extern crate log;
